@@ -23,7 +23,12 @@ impl RunningTaskComm {
 
     fn send_stop(&mut self, reason: StopReason) {
         if let Some(sender) = std::mem::take(&mut self.stop_sender) {
-            assert!(sender.send(reason).is_ok());
+            // The task future may have already dropped the receiver, e.g. when the process of
+            // the task has ended and the launcher only finalizes the task (flushes its streamed
+            // output). Such a task ends on its own, there is nothing to stop.
+            if sender.send(reason).is_err() {
+                log::debug!("Stopping a task that no longer listens for a stop request");
+            }
         } else {
             log::debug!("Stopping a task in stopping process");
         }
